@@ -1192,6 +1192,79 @@ func ruleC03Parse(c *Checker) {
 		}
 	})
 	c.check(nNeg > 0 && (len(bangT) > 0 || bangAsValue), R, name, "'!' recognised", p.Pos(rd.Pos()), "a leading '!' negates the rule", "a leading '!' is no longer recognised as negation")
+	// a branch on the rule's own 'negated' flag is the '!' branch too, when the flag of that local rule (or of
+	// the local it was copied from) is set to true only past the '!' test: a fresh local starts out false
+	negVar = p.FieldVar("ignorefiles", "rule", "negated")
+	var trueOnlyPastBang func(al *ssa.Alloc, depth int) bool
+	trueOnlyPastBang = func(al *ssa.Alloc, depth int) bool {
+		if depth > 4 || al.Referrers() == nil || al.Heap {
+			return false
+		}
+		for _, r := range *al.Referrers() {
+			switch x := r.(type) {
+			case *ssa.FieldAddr:
+				if fieldOf(x) != negVar || x.Referrers() == nil {
+					continue
+				}
+				for _, rr := range *x.Referrers() {
+					st, ok := rr.(*ssa.Store)
+					if !ok || st.Addr != ssa.Value(x) {
+						continue
+					}
+					b, isC := constBool(st.Val)
+					if isC && !b {
+						continue
+					}
+					if !isC || !guarded(st.Block(), bangT) {
+						return false
+					}
+				}
+			case *ssa.Store:
+				if x.Addr != ssa.Value(al) {
+					continue
+				}
+				if k, isC := x.Val.(*ssa.Const); isC && k.Value == nil {
+					continue // rule{}
+				}
+				ld, ok := x.Val.(*ssa.UnOp)
+				if !ok || ld.Op != token.MUL {
+					return false
+				}
+				src, ok := ld.X.(*ssa.Alloc)
+				if !ok || !trueOnlyPastBang(src, depth+1) {
+					return false
+				}
+			}
+		}
+		return true
+	}
+	bangAll := append([]Edge{}, bangT...)
+	if len(bangT) > 0 && negVar != nil {
+		for _, b := range rd.Blocks {
+			ifi, ok := b.Instrs[len(b.Instrs)-1].(*ssa.If)
+			if !ok {
+				continue
+			}
+			cnd, neg := stripNot(ifi.Cond)
+			ld, ok := cnd.(*ssa.UnOp)
+			if !ok || ld.Op != token.MUL {
+				continue
+			}
+			fa, ok := ld.X.(*ssa.FieldAddr)
+			if !ok || fieldOf(fa) != negVar {
+				continue
+			}
+			al, ok := fa.X.(*ssa.Alloc)
+			if !ok || !trueOnlyPastBang(al, 0) {
+				continue
+			}
+			k := 0
+			if neg {
+				k = 1
+			}
+			bangAll = append(bangAll, Edge{b, k})
+		}
+	}
 	// negationsAfter flagged on the '!' edge
 	naVar := p.FieldVar("ignorefiles", "rule", "negationsAfter")
 	nNA := 0
@@ -1207,7 +1280,7 @@ func ruleC03Parse(c *Checker) {
 			}
 			nNA++
 			okg := p.guardedSomewhereOnEveryRoute(st, rd, func(x ssa.Instruction) bool {
-				return x.Parent() == rd && guarded(x.Block(), bangT)
+				return x.Parent() == rd && guarded(x.Block(), bangAll)
 			}, 3)
 			c.check(okg, R, name, "negationsAfter set on '!'", p.Pos(st.Pos()), "earlier rules learn that a negation follows", "negationsAfter is set outside the negation branch")
 		})
